@@ -28,17 +28,31 @@ mkdir -p $OUT && rm -rf $OUT/* && cp seed_out/patch.diff $OUT/ && cp seed_out/me
 mkdir -p $OUT/demo && (cd seed_out/demo && tar --exclude=target -cf - .) | (cd $OUT/demo && tar xf -)
 # 6. run my checks on /repo
 cd /verif
-[ -z "$(git -C /repo status --porcelain)" ] || { log "/repo dirty"; exit 2; }
-git -C /repo apply $OUT/patch.diff || { log "patch does not apply to /repo HEAD"; exit 2; }
+# SEED_NS=1: leave /repo alone (something else is using it) and run the checks in a private mount
+# namespace in which /repo is the scratch worktree with the change applied
+if [ -z "${SEED_NS:-}" ]; then
+  [ -z "$(git -C /repo status --porcelain)" ] || { log "/repo dirty"; exit 2; }
+  git -C /repo apply $OUT/patch.diff || { log "patch does not apply to /repo HEAD"; exit 2; }
+fi
 RES=""
 for c in ${CHECKS//,/ }; do
   s=$(date +%s)
-  VERIF_EVIDENCE_DIR=/tmp/verif-mut-evidence ./check $c quick > /tmp/seed-$P-check-$c.log 2>&1; rc=$?
+  if [ -n "${SEED_NS:-}" ]; then
+    # own copy of the harness (own target directories): cargo decides freshness by mtime, so the
+    # real /verif/harness/target must never be built against a tree whose files are older than
+    # its outputs; here every source file of the scratch tree is touched before building
+    NSV=/tmp/nsverif
+    mkdir -p $NSV && rsync -a --delete --exclude 'target*' --exclude '/evidence' --exclude '/replays' --exclude '.git' /verif/ $NSV/
+    find $WT/core $WT/hook $WT/open-coroutine $WT/macros -name '*.rs' -print0 | xargs -0 touch
+    unshare -m bash -c "mount --bind $WT /repo && cd $NSV && VERIF_EVIDENCE_DIR=/tmp/verif-mut-evidence ./check $c quick" > /tmp/seed-$P-check-$c.log 2>&1; rc=$?
+  else
+    VERIF_EVIDENCE_DIR=/tmp/verif-mut-evidence ./check $c quick > /tmp/seed-$P-check-$c.log 2>&1; rc=$?
+  fi
   e=$(( $(date +%s) - s ))
   RES="$RES $c:exit$rc:${e}s"
   log "check $c quick -> exit $rc (${e}s) $(grep -m1 -a 'violation sub=' /tmp/seed-$P-check-$c.log | cut -c1-260)"
 done
-git -C /repo checkout -- .
+[ -z "${SEED_NS:-}" ] && git -C /repo checkout -- .
 git clean -fdq replays/ 2>/dev/null
 echo "$RES" > $OUT/check_results.txt
 log "confirmed; results:$RES"
